@@ -481,6 +481,8 @@ class Interp:
                 return a & b
             if isinstance(op, ast.Sub):
                 return a - b
+        if isinstance(op, ast.Mult) and ((isinstance(a, list) and isinstance(b, int)) or (isinstance(b, list) and isinstance(a, int))):
+            return a * b
         if isinstance(a, list) and isinstance(b, list) and isinstance(op, ast.Add):
             return a + b
         if isinstance(a, tuple) and isinstance(b, tuple) and isinstance(op, ast.Add):
